@@ -193,7 +193,9 @@ func (p *Provider) ruleSetsChanged(evt fsnotify.Event) error {
 	switch {
 	case evt.Has(fsnotify.Create) || evt.Has(fsnotify.Write) || evt.Has(fsnotify.Chmod):
 		err = p.ruleSetCreatedOrUpdated(evt.Name)
-	case evt.Has(fsnotify.Remove):
+	case evt.Has(fsnotify.Remove) || evt.Has(fsnotify.Rename):
+		// a renamed file is gone under its old name. If the new name lies in the watched
+		// directory as well, a separate create event is emitted for it.
 		err = p.ruleSetDeleted(evt.Name)
 	}
 
